@@ -1400,6 +1400,40 @@ class MayRaise:
                     got[p_] = ctx["pcls"][a.id]
         return ("|" + ",".join(f"{k}={v}" for k, v in sorted(got.items()))) if got else ""
 
+    @staticmethod
+    def _is_getter_expr(a) -> bool:
+        return isinstance(a, ast.Call) and norm(a.func) in ("operator.attrgetter", "attrgetter") and len(a.args) == 1 and not a.keywords and \
+            isinstance(a.args[0], ast.Constant) and isinstance(a.args[0].value, str) and a.args[0].value.isidentifier()
+
+    def callable_param_is_getter(self, fi: FuncInfo, pname: str) -> bool:
+        """every call site of fi passes operator.attrgetter("<identifier>") (directly or through a name bound once to it) for pname"""
+        ps = fi.params()
+        if fi.cls and not fi.is_staticmethod:
+            ps = ps[1:]
+        if pname not in ps:
+            return False
+        idx = ps.index(pname)
+        n_sites = 0
+        for cq, cfi in self.m.functions.items():
+            if isinstance(cfi.node, ast.Lambda) or fi.name not in self.m.modules[cfi.module].source:
+                continue
+            for n in walk_no_nested(cfi.node):
+                if not isinstance(n, ast.Call):
+                    continue
+                f = n.func
+                hit = (isinstance(f, ast.Name) and self.m.resolve_name(cfi.module, f.id) == fi.qualname) or \
+                      (isinstance(f, ast.Attribute) and f.attr == fi.name and fi.cls is not None)
+                if not hit:
+                    continue
+                n_sites += 1
+                a = n.args[idx] if idx < len(n.args) else next((k.value for k in n.keywords if k.arg == pname), None)
+                if isinstance(a, ast.Name):
+                    gq = [g for g in self.m.modules[cfi.module].globals_.get(a.id, []) if isinstance(g, (ast.Assign, ast.AnnAssign))]
+                    a = gq[0].value if len(gq) == 1 else a
+                if not self._is_getter_expr(a):
+                    return False
+        return n_sites > 0
+
     def callable_param_targets(self, fi: FuncInfo, pname: str) -> List[str]:
         """Package functions passed for parameter `pname` of fi at any call site in the package (context-free fallback)."""
         ck = (fi.qualname, pname)
@@ -1478,6 +1512,20 @@ class MayRaise:
                     sfx = self.arg_classes(callee, e, ctx)
                     out |= self.call_summary(callee, sfx or None, ctx, e, recv=None)
                 return out
+            if self.callable_param_is_getter(fi, e.func.id):
+                return out          # operator.attrgetter("name")(x) is x.name: an attribute read
+        if isinstance(e.func, ast.Name) and e.func.id not in fi.params():
+            # a module-level / local name bound once to operator.attrgetter("name")
+            gq = [g for g in self.m.modules[fi.module].globals_.get(e.func.id, []) if isinstance(g, (ast.Assign, ast.AnnAssign))]
+            lq = [g for g in walk_no_nested(fi.node) if isinstance(g, (ast.Assign, ast.AnnAssign)) and g.value is not None and
+                  any(isinstance(t_, ast.Name) and t_.id == e.func.id for t_ in (g.targets if isinstance(g, ast.Assign) else [g.target]))] if not isinstance(fi.node, ast.Lambda) else []
+            binds = lq or gq
+            if len(binds) == 1 and self._is_getter_expr(binds[0].value):
+                return out
+        if isinstance(e.func, ast.Call) and self._is_getter_expr(e.func):
+            return out
+        if self._is_getter_expr(e):
+            return out              # building the getter itself
         res = self.r.callees(e, fi, ctx["self_cls"])
         if res[0] == "multi":
             # a value picked from a dispatch table: any of its entries may be what is called
